@@ -145,6 +145,22 @@ def neighbours(run, rng, n):
                     got = sorted(dd["key"] for dd in s.documents())
                     obs.append({"kind": "flag", "path": "index %r of %r holds exactly its own documents" % (nm, names),
                                 "value": got == sorted(model[j])})
+            if d:
+                # a copy of the storage taken while a writer is at work (its temporary directory is in there)
+                from whoosh.filedb.filestore import copy_to_ram
+                w = ixs[0].writer(limitmb=0.0001)
+                for x in range(30):
+                    w.add_document(key=u"uncommitted-%d" % x, body=u"yy " * 20, n=x)
+                try:
+                    ram = copy_to_ram(st)
+                    same = True
+                    for j, nm in enumerate(names):
+                        with ram.open_index(indexname=nm).searcher() as s:
+                            same = same and sorted(dd["key"] for dd in s.documents()) == sorted(model[j])
+                    obs.append({"kind": "flag", "path": "copy_to_ram() during a writer's session holds the committed documents",
+                                "value": same})
+                finally:
+                    w.cancel()
             ok = True
             for j, want, s in held:
                 try:
